@@ -55,6 +55,7 @@ func checkC29(c *core.Ctx) {
 	ruleChartValidationShape(c)
 	ruleDefaultMetadata(c)
 	ruleMetadataMerge(c)
+	ruleChartLookupFixedFinal(c)
 }
 
 // factStrings renders the branch facts holding at pos as "+cond" / "-cond".
